@@ -512,6 +512,8 @@ def run(seed, scenario, trace=None, tier='quick'):
                                       {'uid': uid, 'slots': slots,
                                        'want': [want_c, want_g]})
                     st['held'][uid] = slots
+                    st['max_held'] = max(st.get('max_held', 0),
+                                         len(st['held']))
                     if len(st['held']) >= 2:
                         sim.probe('concurrent_requests')
                     if slots['gpus']:
@@ -668,6 +670,11 @@ def run(seed, scenario, trace=None, tier='quick'):
                       stall_prob=sc.get('stall', 0.0),
                       max_steps=200000 if tier == 'quick' else 600000)
     res['nontrivial'] = len(sc['reqs']) >= 3
+    st = res['sim'].data.get('c20') or {}
+    res['state_fp'] = [st.get('max_held', 0),
+                       sorted({r['mode'] for r in sc['reqs']}),
+                       len(st.get('fork_failed') or ()),
+                       sorted(res.get('probes') or {})]
     return res
 
 
